@@ -255,7 +255,7 @@ func randOpt6(rng *rand.Rand, code int, depth int) dhcpv6.Option {
 		return o
 	case 98:
 		return &dhcpv6.Opt4RDMapRule{
-			Prefix4:       net.IPNet{IP: net.IP(randBytes(rng, 4)), Mask: net.CIDRMask(pick(rng, 0, 1, 24, 32, rng.Intn(33)), 32)},
+			Prefix4:       net.IPNet{IP: ipForm(rng, net.IP(randBytes(rng, 4))), Mask: net.CIDRMask(pick(rng, 0, 1, 24, 32, rng.Intn(33)), 32)},
 			Prefix6:       net.IPNet{IP: net.IP(randBytes(rng, 16)), Mask: net.CIDRMask(pick(rng, 0, 1, 64, 128, rng.Intn(129)), 128)},
 			EABitsLength:  uint8(rng.Intn(256)),
 			WKPAuthorized: rng.Intn(2) == 0,
@@ -332,7 +332,7 @@ func randCode6(rng *rand.Rand) int {
 // randMsg6 builds a message (relayDepth 0) or a relay chain around one.
 func randMsg6(rng *rand.Rand, depth int, relayDepth int) dhcpv6.DHCPv6 {
 	m := &dhcpv6.Message{MessageType: dhcpv6.MessageType(pick(rng, 1, 2, 3, 7, 11, 0, 14, 20, 21, 255, 1+rng.Intn(11), 14+rng.Intn(242)))}
-	copy(m.TransactionID[:], randBytes(rng, 3))
+	copy(m.TransactionID[:], rxid(rng, 3))
 	for k := pick(rng, 0, 1, 2, 3, 5, rng.Intn(21)); k > 0; k-- {
 		c := randCode6(rng)
 		if c == 9 {
@@ -433,7 +433,7 @@ func genC02(o *Out, rng *rand.Rand, tier string) {
 	for _, c := range v6Known {
 		for k := 0; k < 8; k++ {
 			m := &dhcpv6.Message{MessageType: dhcpv6.MessageTypeReply}
-			copy(m.TransactionID[:], randBytes(rng, 3))
+			copy(m.TransactionID[:], rxid(rng, 3))
 			m.AddOption(randOpt6(rng, c, 2))
 			emit(m, "single-option")
 		}
@@ -461,7 +461,7 @@ func genC02(o *Out, rng *rand.Rand, tier string) {
 	for hops := 2; hops <= 6; hops++ {
 		for _, size := range []int{500, 900, 1100, 2100, 4200} {
 			m := &dhcpv6.Message{MessageType: dhcpv6.MessageTypeRequest}
-			copy(m.TransactionID[:], randBytes(rng, 3))
+			copy(m.TransactionID[:], rxid(rng, 3))
 			m.AddOption(randOpt6(rng, 1, 1))
 			m.AddOption(randOpt6(rng, 3, 2))
 			for len(m.ToBytes()) < size {
@@ -502,7 +502,7 @@ func genC02(o *Out, rng *rand.Rand, tier string) {
 		pd.IaId = [4]byte{4, 3, 2, byte(mask)}
 		pd.Options.Options = dhcpv6.Options{pfx}
 		m := &dhcpv6.Message{MessageType: dhcpv6.MessageTypeReply}
-		copy(m.TransactionID[:], randBytes(rng, 3))
+		copy(m.TransactionID[:], rxid(rng, 3))
 		m.AddOption(ia)
 		m.AddOption(pd)
 		m.AddOption(dhcpv6.OptElapsedTime(0))
@@ -518,7 +518,7 @@ func genC02(o *Out, rng *rand.Rand, tier string) {
 		}
 		one := func(o dhcpv6.Option) {
 			m := &dhcpv6.Message{MessageType: dhcpv6.MessageTypeRenew}
-			copy(m.TransactionID[:], randBytes(rng, 3))
+			copy(m.TransactionID[:], rxid(rng, 3))
 			m.AddOption(o)
 			emit(m, "numeric-sweep")
 		}
@@ -559,7 +559,7 @@ func genC02(o *Out, rng *rand.Rand, tier string) {
 			for _, kind := range kinds {
 				rdataSize, rduidKind = sz, kind
 				m := &dhcpv6.Message{MessageType: dhcpv6.MessageTypeReply}
-				copy(m.TransactionID[:], randBytes(rng, 3))
+				copy(m.TransactionID[:], rxid(rng, 3))
 				m.AddOption(randOpt6(rng, c, 1))
 				rdataSize, rduidKind = -1, -1
 				if len(m.ToBytes()) < 100 && sz != 126 {
@@ -591,7 +591,7 @@ func genC02(o *Out, rng *rand.Rand, tier string) {
 	// option values at the limit of the 16-bit length field
 	for _, L := range []int{65535, 65534, 65280, 32768} {
 		m := &dhcpv6.Message{MessageType: dhcpv6.MessageTypeReply}
-		copy(m.TransactionID[:], randBytes(rng, 3))
+		copy(m.TransactionID[:], rxid(rng, 3))
 		m.AddOption(dhcpv6.OptElapsedTime(0))
 		m.AddOption(&dhcpv6.OptionGeneric{OptionCode: dhcpv6.OptionCode(pick(rng, 200, 43, 65000)), OptionData: randBytes(rng, L)})
 		m.AddOption(&dhcpv6.OptionGeneric{OptionCode: dhcpv6.OptionRapidCommit})
@@ -704,6 +704,12 @@ func genC05(o *Out, rng *rand.Rand, tier string) {
 	emit := func(in []byte, cls string) {
 		out, d := dec6(in)
 		o.Emit(map[string]any{"op": "Dec6", "in": B(in), "out": out}, cls, in, len(in) >= 4)
+		if len(in) > 0 && (len(in)+int(in[0]))%4 == 0 {
+			// the concrete entry points: each accepts its own header family as FromBytes does, and nothing of the other one
+			for _, ep := range []string{"msg", "relay"} {
+				o.Emit(map[string]any{"op": "Dec6E", "ep": ep, "in": B(in), "out": dec6e(in, ep)}, "entry-point-"+ep, append([]byte(ep), in...), len(in) >= 4)
+			}
+		}
 		if d != nil && len(accepted) < 4000 && len(in) > 12 {
 			accepted = append(accepted, append([]byte(nil), in...))
 		}
@@ -1023,6 +1029,27 @@ func genC06v6(o *Out, rng *rand.Rand, tier string) {
 			pd := append(append([]byte{4, 3, 2, 1}, b...), b...)
 			pd = append(append(pd, 0, 26, 0, byte(len(pf))), pf...)
 			fix6(o, append([]byte{5, 1, 2, 3, 0, 25, 0, byte(len(pd))}, pd...), "numeric-sweep") // IA_PD, prefix lifetimes
+		}
+	}
+	// identifiers written byte by byte: every DUID type x hardware type (registered ones, 0, the largest) x address length,
+	// as client and as server identifier, alone and behind a relay
+	for _, dt := range []int{1, 2, 3, 4, 0, 5, 255} {
+		for _, ht := range []int{0, 1, 6, 27, 32, 255, 256, 65535} {
+			for _, al := range []int{0, 1, 6, 8, 16, 17, 20} {
+				d := []byte{byte(dt >> 8), byte(dt), byte(ht >> 8), byte(ht)}
+				if dt == 1 {
+					d = append(d, 0x2a, 0x2b, 0x2c, byte(al))
+				}
+				d = append(d, randBytes(rng, al)...)
+				for _, code := range []byte{1, 2} {
+					msg := append([]byte{1, 7, 7, byte(al), 0, code, 0, byte(len(d))}, d...)
+					fix6(o, msg, "duid-sweep")
+					if (dt+ht+al)%3 == 0 {
+						relay := append(append([]byte{12, 1}, make([]byte, 32)...), 0, 9, byte(len(msg)>>8), byte(len(msg)))
+						fix6(o, append(relay, msg...), "duid-sweep")
+					}
+				}
+			}
 		}
 	}
 	// an embedded DHCPv4 packet (option 87) whose name fields are full, without NUL: cut on re-encode (allowed normalisation)
